@@ -126,6 +126,12 @@ fn main() {
                 }
             };
             let prop = j["property"].as_str().unwrap_or("").to_string();
+            // the class to look for is handed to the check inside the scenario
+            let mut j = j;
+            let class = j["class"].clone();
+            if let Some(o) = j["scenario"].as_object_mut() {
+                o.insert("__class".into(), class);
+            }
             let r = match prop.as_str() {
                 "C11" => c11::replay(&j["scenario"]),
                 "C04" => c04::replay(&j["scenario"]),
